@@ -4,11 +4,20 @@ open Py Lean
 namespace Driver.D_id_nik
 def handle (fn : String) (args : List Json) : String :=
   match fn with
+  | "_check_registration_place" => match args with
+    | [a0] => (do let x0 ← Wire.decStr a0; pure (Wire.respondWith (Wire.encDict Wire.encStr Wire.encStr) (Gen.id_nik._check_registration_place x0)) : Option String).getD "badargs"
+    | _ => "badargs"
   | "compact" => match args with
     | [a0] => (do let x0 ← Wire.decStr a0; pure (Wire.respondWith Wire.encStr (Gen.id_nik.compact x0)) : Option String).getD "badargs"
     | _ => "badargs"
   | "get_birth_date" => match args with
     | [a0, a1] => (do let x0 ← Wire.decStr a0; let x1 ← Wire.decInt a1; pure (Wire.respondWith Wire.encDate (Gen.id_nik.get_birth_date x0 x1)) : Option String).getD "badargs"
+    | _ => "badargs"
+  | "is_valid" => match args with
+    | [a0] => (do let x0 ← Wire.decStr a0; pure (Wire.respondWith Wire.encBool (Gen.id_nik.is_valid x0)) : Option String).getD "badargs"
+    | _ => "badargs"
+  | "validate" => match args with
+    | [a0] => (do let x0 ← Wire.decStr a0; pure (Wire.respondWith Wire.encStr (Gen.id_nik.validate x0)) : Option String).getD "badargs"
     | _ => "badargs"
   | _ => "nofunc"
 end Driver.D_id_nik
